@@ -83,6 +83,124 @@ CLAIMED = {
         "DESIGN.md 4/C10"),
 }
 
+
+CLAIMED.update({
+    "C02": (
+        "16 Coq theorems (coq/Properties/C02.v): the model mirrors annotation.py (ground-truth track map, cached per-label "
+        "timelines with dirty flags, cached segment timeline with its flag). C02_invariant_in_every_reachable_state proves, "
+        "by induction over arbitrary operation lists on any number of objects with reads interleaved anywhere, the "
+        "dirty-flag invariant AInv; the read theorems show that labels(), label_timeline() (hence label_support / "
+        "label_duration / chart) and get_timeline() of any state satisfying AInv equal what is computed from scratch from "
+        "the track map, carry the current uri and leave the track map unchanged; empty segments are never stored "
+        "(finding F2 refuted as a theorem about the old constructor). Tied by write/read histories checked in Coq.",
+        "Trusted: Coq kernel + vm_compute; model coq/Model/Annotation.v (Python dicts as insertion-ordered association "
+        "lists, SortedDict as a segment-sorted list); harness. labels() order is proved as a set (membership + NoDup); its "
+        "str-sorted order and itertracks order are tied exactly by the correspondence for names with distinct str(). "
+        "from_df is run through pandas and compared with from_records (modelled, not proved).",
+        "Coq proof (invariant by induction over histories + refinement of reads to from-scratch functions) + history correspondence",
+        "DESIGN.md 4/C02"),
+    "C07": (
+        "Theorems in coq/Properties/C07.v (see file header for what is proved and what is tied only); the correspondence "
+        "compares crop / extrude in the three modes exactly for loose/strict and, for intersection mode, by the "
+        "order-independent specification: same (piece, label) multiset, distinct track names per piece, every requested "
+        "original name in use.",
+        "Trusted: Coq kernel + vm_compute; model coq/Model/AnnotationOps.v (crop, new_track, extrude as coded); harness.",
+        "Coq proof (partial, see Properties/C07.v) + correspondence with a boolean specification evaluated in Coq",
+        "DESIGN.md 4/C07"),
+    "C08": (
+        "4 Coq theorems (coq/Properties/C08.v) for the purity half on the value model: every read query refreshes caches "
+        "yet leaves track map, uri and modality unchanged, keeps the invariant and does not change the answer of any later "
+        "read. The independence half (no shared mutable state between derived object and source) cannot be expressed in a "
+        "value-semantics model and is NOT proved: it is decided by derive-then-mutate correspondence histories for every "
+        "deriving operation x cache state x mutated side, and by purity snapshots around every query.",
+        "Trusted: Coq kernel; model; harness (snapshots are taken through the public API; the Coq checker compares them). "
+        "Aliasing is explored (sampled), not proved; the heap model of DESIGN 4/C08 was not built.",
+        "Coq proof (purity on the value model) + derive-then-mutate exploration for aliasing",
+        "DESIGN.md 4/C08"),
+    "C09": (
+        "Theorems in coq/Properties/C09.v (see file header); the correspondence compares support(collar) as (segment, label) "
+        "sets with distinct track names, label durations and the co-occurrence matrix exactly, chart and argmax through "
+        "their boolean specifications (ties free).",
+        "Trusted: Coq kernel + vm_compute; model coq/Model/AnnotationOps.v; harness (percent=True fractions are checked in "
+        "the driver in floating point).",
+        "Coq proof (partial, see Properties/C09.v) + correspondence evaluated in Coq",
+        "DESIGN.md 4/C09"),
+    "C11": (
+        "9 Coq theorems (coq/Properties/C11.v): rename_labels gives every track mapping.get(label, label) exactly once "
+        "(swap and chain corollaries), keeps segments, track names, uri, modality, in place or on a copy, and keeps the "
+        "C02 invariant; subset(L) / subset(L, invert=True) keep exactly the tracks whose label is / is not in L and "
+        "partition the annotation. rename_tracks, relabel_tracks and generated mappings are tied exactly, not proved.",
+        "Trusted: Coq kernel + vm_compute; model; harness.",
+        "Coq proof + correspondence evaluated in Coq",
+        "DESIGN.md 4/C11"),
+    "C12": (
+        "Theorems in coq/Properties/C12.v (see file header); the correspondence compares ==, != on perturbed / shuffled "
+        "copies, the record / dataframe / timeline round trips, and RTTM / LAB / UEM lines and str(segment) as strings "
+        "against the Text model (exact decimal rounding of dyadic times).",
+        "Trusted: Coq kernel + vm_compute; model coq/Model/Text.v; harness; pandas paths are run, not modelled.",
+        "Coq proof (partial, see Properties/C12.v) + string-level correspondence evaluated in Coq",
+        "DESIGN.md 4/C12"),
+    "C13": (
+        "8 Coq theorems (coq/Properties/C13.v), exact level on rationals: nearest within half a unit, on-grid values "
+        "unchanged, no drift under any number of re-wrappings, operations keep grid bounds, monotone, congruent; the old "
+        "truncating formula refuted (finding F1). The binary64 evaluation (math.floor(x / P + 0.5) * P) is modelled with "
+        "Coq primitive floats and tied bit-for-bit (float.hex) for n = 0..6, not proved.",
+        "Trusted: Coq kernel, its vm_compute and primitive-float operations; model coq/Model/Precision.v; harness.",
+        "Coq proof (exact arithmetic) + bit-exact float correspondence evaluated in Coq",
+        "DESIGN.md 4/C13"),
+    "C14": (
+        "16 Coq theorems (coq/Properties/C14.v) on the exact (tick-aligned) tier: constructor validation, positions, "
+        "iteration = positions 0..N-1 with N = ceil((end-start)/step), len() = N wherever closest_frame(end) lands, "
+        "closest_frame nearest and inverse of the centre, range_to_segment tiling, __call__ positions and the align_last "
+        "flush condition. The float side and non-aligned values are tied on binary grids only (no tolerance tier built).",
+        "Trusted: Coq kernel + vm_compute; model coq/Model/Window.v (exact quotients; DESIGN 2.4); harness.",
+        "Coq proof (Z division lemmas, lia/nia) + exhaustive small-geometry correspondence",
+        "DESIGN.md 4/C14"),
+    "C15": (
+        "8 Coq theorems (coq/Properties/C15.v): loose = frames touching the focus, strict = frames inside it, strict "
+        "subset of loose, center by definition of closest_frame, fixed count = samples, index array = range, Timeline "
+        "focus = increasing duplicate-free union over support segments, empty focus empty. return_ranges describing the "
+        "same set after merging is checked at run time on every case, not proved.",
+        "Trusted: Coq kernel + vm_compute; model coq/Model/Window.v; harness.",
+        "Coq proof + exhaustive small-geometry correspondence",
+        "DESIGN.md 4/C15"),
+    "C16": (
+        "7 Coq theorems (coq/Properties/C16.v) on abstract rows: without fixed exactly the requested rows that exist, in "
+        "bounds; with fixed exactly b - a rows with clamped indices; cropped window start; iteration and extent. ufuncs, "
+        "align and >2-D data are asserted by the driver (modelled, not proved). Known finding F5 recorded.",
+        "Trusted: Coq kernel + vm_compute; model coq/Model/Feature.v; harness.",
+        "Coq proof + correspondence evaluated in Coq",
+        "DESIGN.md 4/C16"),
+    "C17": (
+        "Theorems in coq/Properties/C17.v (see file header); the correspondence checks discretize and one_hot_encoding "
+        "against the model exactly and against the centre rule as a boolean specification, and one_hot_decoding against "
+        "the model; known finding F7 (decoded offsets up to 1.5 step late) is recognised by a dedicated verdict code; "
+        "finding F11 (negative slice bound) fixed.",
+        "Trusted: Coq kernel + vm_compute; model coq/Model/Discretize.v; harness.",
+        "Coq proof (partial, see Properties/C17.v) + correspondence with boolean specification evaluated in Coq",
+        "DESIGN.md 4/C17"),
+    "C19": (
+        "11 Coq theorems (coq/Properties/C19.v): int_generator, pairwise, string_generator as the filtered stream of "
+        "words (skip honoured, order kept), new_track returns the candidate when free else a fresh name = prefix + least "
+        "free integer (pigeonhole proved), random_subsegment inside its source for every draw u in [0,1). The closed form "
+        "of the words, to_annotation and random_segment are tied only.",
+        "Trusted: Coq kernel + vm_compute; models coq/Model/Generators.v, AnnotationOps.v; harness (np.random.random is "
+        "replaced by a stub returning k/1024 so that model and implementation see the same draw).",
+        "Coq proof + correspondence evaluated in Coq",
+        "DESIGN.md 4/C19"),
+    "C20": (
+        "17 Coq theorems (coq/Properties/C20.v): to_condensed symmetric, rejects the diagonal, numbers pairs in row-major "
+        "order 0..n(n-1)/2-1 strictly increasingly; to_squared inverse both ways (exact integer square root); pdist layout "
+        "at to_condensed positions, cdist entries, metric definitions; propagate_constraints result contains the given "
+        "pairs and is closed under the propagation rule (partial: minimality, the exact ValueError condition and "
+        "termination are decided by the exhaustive correspondence on small graphs). l2_normalize is checked numerically.",
+        "Trusted: Coq kernel + vm_compute; model coq/Model/Condensed.v (exact arithmetic; the float sqrt of to_squared is "
+        "tied up to n = 10^7 at row starts/ends); harness running under python3-vt with the repository files loaded "
+        "through a synthetic package.",
+        "Coq proof (nia over Z) + exhaustive/sampled correspondence",
+        "DESIGN.md 4/C20"),
+})
+
 NOT_YET = "check not built yet in this round (planned: see DESIGN.md section 8)"
 
 
